@@ -59,7 +59,17 @@ impl LayerDefs {
     /// The number a purpose is exported under: the one it was registered with last (independent of the library's own `Layer::num`)
     pub fn num_of(&self, key: LayerKey, purpose: &LayerPurpose) -> Option<i16> {
         let (_, pairs) = self.registered.iter().find(|(k, _)| *k == key)?;
-        pairs.iter().rev().find(|(_, p)| p == purpose).map(|(n, _)| *n)
+        pairs.iter().rev().find(|(_, p)| same_purpose(p, purpose)).map(|(n, _)| *n)
+    }
+}
+/// Are two purposes the same purpose? Written out here (variant, name AND number) so that the generator's own bookkeeping does not pass
+/// through `LayerPurpose`'s `==`.
+pub fn same_purpose(a: &LayerPurpose, b: &LayerPurpose) -> bool {
+    match (a, b) {
+        (LayerPurpose::Named(x, i), LayerPurpose::Named(y, j)) => x == y && i == j,
+        (LayerPurpose::Other(i), LayerPurpose::Other(j)) => i == j,
+        (LayerPurpose::Named(..), _) | (_, LayerPurpose::Named(..)) | (LayerPurpose::Other(_), _) | (_, LayerPurpose::Other(_)) => false,
+        _ => std::mem::discriminant(a) == std::mem::discriminant(b),
     }
 }
 
@@ -112,6 +122,12 @@ pub fn rand_layers_cfg(rng: &mut Rng, hostile: bool, shared_only: bool) -> Layer
             (pn[5], LayerPurpose::Named(format!("purp{}", i), pn[5])),
             (pn[6], LayerPurpose::Other(pn[6])),
         ];
+        // one layer in three has a SECOND named purpose of the same name under another number (a PDK's "fill" 5 and "fill" 9): two different
+        // purposes - a purpose is its name and its number - which only a comparison that looks at both keeps apart
+        if rng.chance(1, 3) {
+            let q = if wide { *rng.pick(&[77i16, -77, 1234]) } else { 70 + rng.range(0, 20) as i16 };
+            pairs.push((q, LayerPurpose::Named(format!("purp{}", i), q)));
+        }
         let base = pairs.clone();
         if hostile {
             // a second number for some purposes, then numbers re-assigned to another purpose
@@ -145,7 +161,7 @@ pub fn rand_layers_cfg(rng: &mut Rng, hostile: bool, shared_only: bool) -> Layer
             layers.names.insert(format!("{}.drawing", name), key);
         }
         registered.push((key, all_pairs));
-        let usable: Vec<(LayerPurpose, i16)> = pairs.iter().filter(|(_, p)| *p != LayerPurpose::Label).map(|(n, p)| (p.clone(), *n)).collect();
+        let usable: Vec<(LayerPurpose, i16)> = pairs.iter().filter(|(_, p)| !same_purpose(p, &LayerPurpose::Label)).map(|(n, p)| (p.clone(), *n)).collect();
         table.push((key, *num, usable));
     }
     LayerDefs { layers, table, registered }
